@@ -82,8 +82,20 @@ func genPlanSrv(t *simrt.Tape, tier string) interface{} {
 			st.NoWait = true
 			sc = append(sc, st)
 		}
+		if t.Draw(3) == 0 {
+			// ... whose only words are a session envelope in a state that cannot open a session
+			sc = []Step{{Op: "session", State: []string{"established", "authenticating", "negotiating", "finishing"}[t.Draw(4)], Scheme: "guest", NoWait: true}}
+			if t.Draw(2) == 0 {
+				// (where the peer's departure is visible at once: the in-process transport of a full server)
+				p.Conf.Transport = "inproc"
+				p.Conf.Full = true
+			}
+		}
 		sc = append(sc, Step{Op: []string{"close", "close", "reset"}[t.Draw(3)]})
 		p.Scripts[0] = sc
+		// (over the in-process transport such a peer may also never read: the server's answer then
+		// has nowhere to go when the queue is short)
+		p.Conf.DeafInProc = p.Conf.Transport == "inproc" && t.Draw(2) == 0
 	} else if t.Draw(5) == 0 {
 		// template: authentication round trips, then an answer that changes one thing
 		p.Conf.AuthOut = [][]int{{2, 0}, {2, 2, 0}, {2, 4}, {2, 1, 0}}[t.Draw(4)]
@@ -290,6 +302,14 @@ func oracleC03(w *World, p *PlanSrv, h *History, sut *SUT, nconn int) {
 				authFrames = append(authFrames, e)
 			}
 		}
+		// what the server announced to this peer (the offer the peer saw, which is what "offered" means
+		// to it; the configuration is only what the server may announce)
+		var announced []string
+		for _, e := range evs {
+			if e.Kind == "s-frame" && fstr(e.Frame, "state") == "authenticating" && e.Frame["schemeOptions"] != nil && announced == nil {
+				announced = fstrs(e.Frame, "schemeOptions")
+			}
+		}
 		nAuth := 0
 		var lastAuth *HEvent
 		var lastAuthClient map[string]interface{} // the client frame the last auth call answered
@@ -341,6 +361,8 @@ func oracleC03(w *World, p *PlanSrv, h *History, sut *SUT, nconn int) {
 				}
 				if !containsS(offered, sc) {
 					w.Violate("C03.established-under-unoffered-scheme", sig(what), "connection %d established under scheme %q, offered were %v\n%s", k, sc, offered, h.Dump(60))
+				} else if announced != nil && !containsS(announced, sc) {
+					w.Violate("C03.established-under-unoffered-scheme", sig(what+" announced"), "connection %d established under scheme %q, which the server had not announced to this peer (announced %v, configured %v)\n%s", k, sc, announced, offered, h.Dump(60))
 				}
 				if lastAuthClient != nil {
 					if identityOf(fstr(lastAuthClient, "from")) != fstr(lastAuth.Frame, "identity") || fstr(lastAuthClient, "scheme") != sc {
